@@ -4,6 +4,8 @@ mod amf;
 mod chunk;
 mod client;
 mod clock;
+mod hs;
+mod sha;
 mod msg;
 mod server;
 mod sess;
@@ -56,6 +58,13 @@ fn main() {
         }
         "clock" => {
             let info = clock::generate(&a.tier, a.seed, &a.out);
+            println!("{}", info);
+        }
+        "hs" => {
+            let kind = a.rest[0].clone();
+            let shard: u64 = a.rest.get(1).map(|s| s.parse().unwrap()).unwrap_or(0);
+            let nshards: u64 = a.rest.get(2).map(|s| s.parse().unwrap()).unwrap_or(1);
+            let info = hs::generate(&kind, &a.tier, a.seed, shard, nshards, &a.out);
             println!("{}", info);
         }
         x => {
